@@ -69,3 +69,10 @@ func (c *StackCounter) VStacks() (pcs [][]uintptr, ctrs []*Counter) {
 	}
 	return pcs, ctrs
 }
+
+// VNumStacks (C15) is the number of counters the stack counter has created.
+func (c *StackCounter) VNumStacks() int {
+	c.mu.Lock()
+	defer c.mu.Unlock()
+	return len(c.stacks)
+}
